@@ -3,7 +3,7 @@
 
 use crate::cfg::Cfg;
 use crate::model::{kv_apply, kv_root, kv_trie, Kv, Model};
-use crate::report::{hex8, Rep};
+use nvcore::report::{hex8, Rep};
 use bitvec::prelude::*;
 use nomt::proof::{self, PathUpdate};
 use nomt::trie::LeafData;
